@@ -456,3 +456,81 @@ def mentions_caller_string(val, fn):
             return any(walk(x, under_call) for x in v)
         return False
     return walk(val)
+
+
+def link_direction_rule(model, rep, r, rule):
+    """add_comp links parent -> child for every declared parent: add_child(first parent, comp), then add_edge(k-th parent, new node)
+    for k = 1..n-1"""
+    rel = model.rel("system")
+    fn, leaves = paths(model, r, "add_comp")
+    ok = True
+    seen = 0
+    for lf in leaves:
+        if lf.kind == "raise":
+            continue
+        ch = [e for e in lf.events if e[0] == "effect" and e[2] == "add_child"]
+        ed = [e for e in lf.events if e[0] == "effect" and e[2] == "add_edge"]
+        if len(ch) != 1:
+            ok = False
+            rep.violation(rule, "system.System.add_comp", "%s:%d" % (rel, fn.lineno), "an accepting path creates %d nodes" % len(ch), "add_child count %d" % len(ch))
+            continue
+        seen += 1
+        a = ch[0][3]
+        lst = None
+        if isinstance(a[0], Sym) and a[0].key[0] == "sub" and a[0].key[2] == sysrules.lift0():
+            lst = a[0].key[1]
+        if lst is None or a[1] != Sym(("name", "comp")):
+            ok = False
+            rep.violation(rule, "system.System.add_comp", "%s:%d" % (rel, ch[0][4]), "the new node is created as add_child(%s, %s), expected (first declared parent, the component)" % (show_value(a[0]), show_value(a[1])), "add_child operands")
+            continue
+        newnode = Sym(("graph", "add_child", ch[0][3], ch[0][4]))
+        for e in ed:
+            p, c = e[3][0], e[3][1]
+            good = vkey(c) == vkey(newnode) and isinstance(p, Sym) and p.key[0] == "sub" and p.key[1] == lst and isinstance(p.key[2], Sym) and p.key[2].key[0] == "elem"
+            if good:
+                rng = show_value(p.key[2])
+                good = "range(1, " in rng
+            if not good:
+                ok = False
+                rep.violation(rule, "system.System.add_comp", "%s:%d" % (rel, e[4]), "a further input is linked as add_edge(%s, %s), expected (k-th declared parent for k >= 1, the new node)" % (show_value(p)[:80], show_value(c)[:60]), "add_edge operands")
+        # the stored index list must be the list the links were made from
+    if seen == 0:
+        raise AnalysisError("add_comp: no accepting path creates a node")
+    rep.instance(rule, "system.System.add_comp links every declared parent to the new node, parent -> child", "%s:%d" % (rel, fn.lineno), ok, "%d accepting paths" % seen)
+
+
+def graph_registry_pairing(model, rep, r, rule):
+    """nodes of the graph and keys of the name registry appear and disappear together"""
+    rel = model.rel("system")
+    n = 0
+    for mname in ("add_source", "add_comp", "change_comp", "del_comp"):
+        fn, leaves = paths(model, r, mname)
+        ok = True
+        for lf in leaves:
+            if lf.kind == "raise":
+                continue
+            adds = sum(1 for e in lf.events if e[0] == "effect" and e[2] in ("add_node", "add_child"))
+            rems = sum(1 for e in lf.events if e[0] == "effect" and e[2] == "remove_node")
+            sets = dels = 0
+            setitem = 0
+            for e in lf.events:
+                if e[0] in ("store", "del"):
+                    c = classify_store(e[1])
+                    if c and c[0] == "REG" and c[1] == "nodes":
+                        if e[0] == "store":
+                            sets += 1
+                        else:
+                            dels += 1
+                    if c and c[0] == "GRAPH" and e[0] == "store":
+                        setitem += 1
+            want_sets = adds + (1 if mname == "change_comp" else 0)
+            want_dels = rems + (1 if mname == "change_comp" else 0)
+            if sets != want_sets or dels != want_dels or (mname == "change_comp" and setitem != 1):
+                ok = False
+                rep.violation(rule, "system.System.%s" % mname, "%s:%d" % (rel, fn.lineno),
+                              "on an accepting path the graph gains %d / loses %d node(s) but the name registry gains %d / loses %d key(s): graph and registry drift apart" % (adds, rems, sets, dels),
+                              "graph/registry pairing +%d-%d vs +%d-%d" % (adds, rems, sets, dels))
+                break
+        rep.instance(rule, "system.System.%s graph nodes and name registry change together" % mname, "%s:%d" % (rel, fn.lineno), ok)
+        n += 1
+    rep.floor(rule, n, 4)
